@@ -151,6 +151,8 @@ M = [
      "        randset_l = list(filter(lambda e: e is not None, builder._randset_l))\n        if any(getattr(c, 'srcinfo', None) is not None for rs in randset_l for c in rs.constraints()):\n            randset_l.reverse()", ["C09"]),
     ("c09_solvefail_debug_extra_draw", "src/vsc/model/randomizer.py",
      "        self.solve_fail_debug = solve_fail_debug\n", "        self.solve_fail_debug = solve_fail_debug\n        if solve_fail_debug:\n            randstate.randint(0, 1)\n", ["C09"]),
+    ("randsz_no_preextend", "src/vsc/visitors/array_constraint_builder.py",
+     "                if len(f.field_l) < max_size and f.is_scalar:", "                if len(f.field_l) < max_size - 1 and f.is_scalar:", ["C04"]),
     ("unsat_returns", "src/vsc/model/randomizer.py",
      "            if btor.Sat() != btor.SAT:\n                # If the system doesn't solve with hard constraints added,",
      "            if btor.Sat() != btor.SAT and len(constraint_l) > 3:\n                # If the system doesn't solve with hard constraints added,",
